@@ -809,16 +809,16 @@ func gen(g *hx.Gen) {
 		n := 1 + r.Intn(1<<21-1)
 		g.Emit("maj %d %d", n, 2*n/3+r.Intn(3))
 	}
-	for i := 0; i < g.N(3000, 60000); i++ {
+	for i := 0; i < g.N(3000, 40000); i++ {
 		genConfirm(g)
 	}
-	for i := 0; i < g.N(1500, 30000); i++ {
+	for i := 0; i < g.N(1500, 20000); i++ {
 		genPool(g)
 	}
-	for i := 0; i < g.N(1500, 30000); i++ {
+	for i := 0; i < g.N(1500, 20000); i++ {
 		genDisp(g)
 	}
-	for i := 0; i < g.N(24, 800); i++ {
+	for i := 0; i < g.N(24, 400); i++ {
 		genChain(g)
 	}
 }
